@@ -273,6 +273,33 @@ func fixedCases() []Case {
 			{K: "heading", Text: "0 later", Level: 2},
 			{K: "updtoc", Times: 2},
 		}},
+		// a document with notes from its file, two documents rendered from it, removals of inherited notes and adds in
+		// each of the three, a document rendered from a rendered one
+		{Kind: "derived", Ops: []Op{
+			{K: "footnote", Text: "a", Note: "fn one"},
+			{K: "footnote", Text: "b", Note: "fn two"},
+			{K: "endnote", Text: "c", Note: "en one"},
+			{K: "listitem", Text: "i", Type: "decimal", Level: 0, Start: 3},
+			{K: "footnote", Text: "d", Note: "fn three"},
+			{K: "endnote", Text: "e", Note: "en two"},
+			{K: "reopen"},
+			{K: "footnote", Text: "f", Note: "fn four (after open)"},
+			{K: "derive", Times: 2},
+			{K: "rmfn", IDKind: "live", Sel: 1, Doc: 1},
+			{K: "rmen", IDKind: "live", Sel: 0, Doc: 1},
+			{K: "footnote", Text: "g", Note: "fn in doc 2", Doc: 2},
+			{K: "rmfn", IDKind: "live", Sel: 1, Doc: 2},
+			{K: "rmfn", IDKind: "live", Sel: 3, Doc: 0},
+			{K: "endnote", Text: "h", Note: "en in base", Doc: 0},
+			{K: "listitem", Text: "ii", Type: "decimal", Level: 0, Start: 5, Doc: 1},
+			{K: "listitem", Text: "iii", Type: "lowerRoman", Level: 0, Start: 2, Doc: 2},
+			{K: "rmfn", IDKind: "removed", Sel: 0, Doc: 1},
+			{K: "derive", Times: 1, Doc: 1},
+			{K: "rmen", IDKind: "live", Sel: 0, Doc: 3},
+			{K: "endnote", Text: "j", Note: "en in doc 1", Doc: 1},
+			{K: "reopen", Doc: 2},
+			{K: "rmfn", IDKind: "live", Sel: 0, Doc: 2},
+		}},
 		{Kind: "toc", Ops: []Op{
 			{K: "heading", Text: "z", Level: 2},
 			{K: "heading", Text: "a", Level: 1},
